@@ -832,7 +832,7 @@ def _enumerate_cases(tier):
 def pair_plan(tier):
     """(grammar, path, form, both orders, pairs with the long-list deviations too)"""
     if tier == 'quick':
-        return [('route4', 'api', 'flat', False, False), ('flow', 'api', 'nested', False, False), ('vpls', 'api', 'flat', False, False)]
+        return [('route4', 'api', 'flat', False, False), ('flow', 'api', 'nested', False, False)]
     return [('route4', 'api', 'flat', True, True), ('route4', 'config', 'flat', False, False), ('route4', 'config', 'nested', False, False),
             ('route6', 'api', 'flat', False, True), ('flow', 'api', 'nested', False, True), ('flow', 'config', 'nested', False, True), ('flow', 'api', 'flat', False, False),
             ('vpls', 'api', 'flat', False, True), ('vpls', 'config', 'nested', False, False), ('fam4u', 'api', 'flat', False, False), ('attributes', 'api', 'flat', False, False)]
@@ -948,7 +948,7 @@ def worker(args):
     cases = singles if phase == 'single' else pairs if phase == 'pair' else multi_cases()
     sess = QUICK_PAIR_SESSIONS if (tier == 'quick' and phase == 'pair') else sess_for(tier)
     G = T.grammars()
-    res = {'exec': 0, 'viol': {}, 'outcomes': {}, 'nontrivial': 0, 'samples': [], 'single_index': [], 'explained': 0, 'by_path': {}, 'hang_pairs_skipped': 0}
+    res = {'exec': 0, 'viol': {}, 'outcomes': {}, 'nontrivial': 0, 'samples': [], 'single_index': [], 'explained': 0, 'by_path': {}, 'hang_pairs_skipped': 0, 'must': [0, 0]}
     for idx, case in enumerate(cases):
         if idx % nshards != shard:
             continue
@@ -973,6 +973,9 @@ def worker(args):
         res['by_path'][case['path']] = res['by_path'].get(case['path'], 0) + 1
         if case['devs']:
             res['nontrivial'] += 1
+        if phase == 'single' and case['devs'] and g.by_key[case['devs'][0]].must:
+            res['must'][0] += 1
+            res['must'][1] += 1 if (lab.startswith('accepted') and not viols) else 0
         okey = f'{case["path"]}:{lab}'
         res['outcomes'][okey] = res['outcomes'].get(okey, 0) + 1
         for devkey, kind, what in viols:
@@ -1001,6 +1004,8 @@ def _merge(ctx, res, agg):
         agg['by_path'][k] = agg['by_path'].get(k, 0) + n
     agg['explained'] += res['explained']
     agg['hang_pairs_skipped'] += res['hang_pairs_skipped']
+    agg['must'][0] += res['must'][0]
+    agg['must'][1] += res['must'][1]
     agg['single_index'].update(res['single_index'])
     for smp in res['samples']:
         ctx.sample(smp)
@@ -1031,7 +1036,7 @@ def run(ctx: core.Ctx) -> None:
                         'an attribute set too large for the negotiated message size may be accepted and not sent (the size is not known when parsing)',
                         'a keyword given twice may send either value', 'tolerances of C01 (attribute order, LOCAL_PREF on eBGP, as-path as given or with the local AS prepended)']
     nshards = 192
-    agg = {'outcomes': {}, 'by_path': {}, 'explained': 0, 'hang_pairs_skipped': 0, 'single_index': set(), 'viol': {}}
+    agg = {'outcomes': {}, 'by_path': {}, 'explained': 0, 'hang_pairs_skipped': 0, 'must': [0, 0], 'single_index': set(), 'viol': {}}
     pool = mp.Pool(min(16, os.cpu_count() or 1))
     try:
         order = list(range(nshards))
@@ -1053,6 +1058,8 @@ def run(ctx: core.Ctx) -> None:
     ctx.counters['pairs'] = len(pairs)
     ctx.counters['pair_violations_explained_by_a_single'] = agg['explained']
     ctx.counters['pairs_not_run_because_one_member_hangs_alone'] = agg['hang_pairs_skipped']
+    ctx.counters['must_accept_table_cases'] = agg['must'][0]
+    ctx.counters['must_accept_table_accepted_and_sent_as_written'] = agg['must'][1]
     for k, n in sorted(agg['by_path'].items()):
         ctx.counters[f'path_{k}'] = n
     ctx.coverage_extra['outcomes'] = dict(sorted(agg['outcomes'].items()))
@@ -1061,7 +1068,7 @@ def run(ctx: core.Ctx) -> None:
     for k in agg['outcomes']:
         ctx.add_to_set('outcomes', k)
     if tier == 'quick':
-        ctx.cap('quick: pairs only for the route4/flow/vpls grammars on the api path, without the long-list deviations, one order; 8 of the 16 sessions for single deviations, 4 for pairs')
+        ctx.cap('quick: pairs only for the route4 and flow grammars on the api path, without the long-list deviations, one order; 8 of the 16 sessions for single deviations, 4 for pairs')
     else:
         ctx.cap('thorough: pairs not enumerated for the cb path, the family grammars other than ipv4 unicast, and long-list deviations on the configuration path')
 
